@@ -8,12 +8,11 @@ Theorem C19_check_sound : forall i o, check_C19 i o = true -> C19_holds i o.
 Proof. exact check_sound. Qed.
 Print Assumptions C19_check_sound.
 
-(* ---- main theorem: on the proved class the model satisfies the property (ids each once and nothing else,
+(* ---- main theorem: for every well-formed tree and every configuration the model satisfies the property (ids each once and nothing else,
         duplicate ids reported k-1 times, errors exactly when a revision file cannot be imported / bad separator) *)
-Theorem C19_main_partial : forall i, wf_tree (i_tree i) = true -> (i_sl i = true -> no_live_pyo (i_tree i) = true) ->
-  C19_holds i (load_revisions i).
+Theorem C19_main : forall i, wf_tree (i_tree i) = true -> C19_holds i (load_revisions i).
 Proof. exact main. Qed.
-Print Assumptions C19_main_partial.
+Print Assumptions C19_main.
 Theorem C19_main_inclass : forall i, inclass_C19 i = true -> C19_holds i (load_revisions i).
 Proof. exact main_inclass. Qed.
 Print Assumptions C19_main_inclass.
@@ -46,20 +45,12 @@ Definition s_setup : str := [115;101;116;117;112;46;112;121].                   
 Definition dflt : list (option path) := [Some [s_sd; s_versions]].
 
 (* ---- no error: if every expected revision file is importable the load succeeds *)
-Theorem C19_no_error_partial : forall T sl rec ps ids,
-  wf_tree T = true -> (sl = true -> no_live_pyo T = true) ->
+Theorem C19_no_error : forall T sl rec ps ids,
+  wf_tree T = true ->
   expected_from T sl rec (flat_map (resolve_loc T) ps) = Ok ids ->
   exists ob, load_from T sl rec (flat_map (resolve_loc T) ps) = Ok ob.
 Proof. exact no_error. Qed.
-Print Assumptions C19_no_error_partial.
-
-(* FINDING (open): sourceless, a lone versions/x.pyo: a version file by the documentation, the load fails *)
-Definition T_pyo : node := Dir [(s_sd, Dir [(s_versions, Dir [(s_x_pyo, File (Some 1))])])].
-Theorem C19_no_error_refuted : exists T ps ids,
-  wf_tree T = true /\ expected_from T true false (flat_map (resolve_loc T) ps) = Ok ids /\
-  load_from T true false (flat_map (resolve_loc T) ps) = Err ELoad.
-Proof. exists T_pyo, dflt, [1]. repeat split; vm_compute; reflexivity. Qed.
-Print Assumptions C19_no_error_refuted.
+Print Assumptions C19_no_error.
 
 (* ---- a source wins over its compiled forms; a .pyc wins over a .pyo *)
 Theorem C19_source_wins : forall T sl rec ps ob,
@@ -103,13 +94,15 @@ Theorem C19_rev_file_names : forall sl nm,
 Proof. exact match_rev_file_spec. Qed.
 Print Assumptions C19_rev_file_names.
 
-(* ---- the witnesses of the two repaired findings now satisfy the property *)
+(* ---- the witnesses of the three repaired findings now satisfy the property *)
 Definition T_shadow : node :=
   Dir [(s_sd, Dir [(s_versions, Dir [(s_x_txt, File (Some 1)); (s_pycache, Dir [(s_x_cache, File (Some 2))])])])].
 Definition i_blank : input :=
   mkInput SepNone (Some [118;49;32]) false false
           (Dir [(s_sd, Dir []); (s_v1, Dir [(s_a_py, File (Some 1))]); (s_setup, File (Some 2))]).
+Definition T_pyo : node := Dir [(s_sd, Dir [(s_versions, Dir [(s_x_pyo, File (Some 1))])])].
 Example C19_repaired_witnesses :
+  load_from T_pyo true false (flat_map (resolve_loc T_pyo) dflt) = Ok (mkObs [1] 0 []) /\
   load_from T_shadow true false (flat_map (resolve_loc T_shadow) dflt) = Ok (mkObs [2] 0 []) /\
   load_revisions i_blank = Ok (mkObs [1] 0 []) /\ expected i_blank = Ok [1].
 Proof. repeat split; vm_compute; reflexivity. Qed.
@@ -132,7 +125,7 @@ Example C19_main_nonvacuous :
 Proof. repeat split; vm_compute; reflexivity. Qed.
 Definition ps_rich : list (option path) := [Some [s_sd; s_versions]; Some [s_v1]; Some [[108]]].
 Example C19_exactly_once_nonvacuous :
-  wf_tree T_rich = true /\ no_live_pyo T_rich = true /\
+  wf_tree T_rich = true /\
   load_from T_rich true true (flat_map (resolve_loc T_rich) ps_rich) = Ok (mkObs [1; 5; 4; 5] 3 [5]) /\
   expected_from T_rich true true (flat_map (resolve_loc T_rich) ps_rich) = Ok [1; 4; 5; 5].
 Proof. repeat split; vm_compute; reflexivity. Qed.
